@@ -124,7 +124,11 @@ func (p *prog) experiment(op *opSpec) {
 	pre := p.A.ReadState()
 	fpg, netSize := nz(pre.State.FeePerGas()), pre.ValidatorsCache.NetworkSize()
 	pc := payClass(op, p.minStake(), p.balance(op.sender.Addr))
-	key := fmt.Sprintf("%s|%s|%s", op.kind, op.op, op.method)
+	kindLabel := op.kind
+	if p.profile == "v9" {
+		kindLabel += "@v9" // pre-upgrade code paths (old OracleVoting / RefundableOracleLock versions, pre-upgrade-11 pay-amount rules)
+	}
+	key := fmt.Sprintf("%s|%s|%s", kindLabel, op.op, op.method)
 	evid.Count("gen.gas." + gasClass)
 	evid.Count("gen.pay." + pc)
 	evid.Count("gen.args." + op.argClass)
@@ -172,6 +176,12 @@ func (p *prog) experiment(op *opSpec) {
 		pre: preSnap, with: takeSnap(with.ReadState()), without: takeSnap(without.ReadState()), rec: rec, dry: dry, fpg: fpg, netSize: netSize,
 		kind: op.kind, op: op.op, method: op.method, desc: p.describe(op, tx, gasClass)}
 	c.check(t)
+	if rec.Success && op.post != nil {
+		if msg := op.post(c); msg != "" {
+			c.failf(t, "successful execution did not apply what the method promises: %s", msg)
+		}
+		evid.Count("post-condition.checked." + op.kind + "." + op.method)
+	}
 
 	// --- bookkeeping and evidence ---
 	outcome := ""
